@@ -9,6 +9,7 @@ value not in set.  The abstract state at a program point is a *set* of worlds
 (disjunction); join is set union (bounded), so correlations between different
 tests survive merges.
 """
+import re
 from collections import defaultdict
 
 from core import (
@@ -17,6 +18,7 @@ from core import (
     callee_name,
     expr_str,
     places_in,
+    place_to_str,
     strip_generics,
     walk,
 )
@@ -211,6 +213,13 @@ class Cond:
                     nvs = _map_names(vs, names)
                     return self._mk(("val", p[1]), nvs)
                 return self._mk(("val", p[1]), vs)
+            if p[0] == "phi" and p[2] and all(a[0] == "agg" and a[1] == "adt" and a[3] for a in p[2]):
+                # a value built as one constant variant per path (`None` / `Some(x)` out of a helper):
+                # the dataflow records which one at each construction
+                names = prog.variant_names(fn.locals[p[1]]["ty"])
+                if names:
+                    return self._mk(("val", place_to_str(fn, p[1], [])), _map_names(vs, names))
+                return []
             if p[0] == "call":
                 # discriminant of a call result (`if let Some(x) = self.f.take()`)
                 ret_ty = p[4][2] if len(p[4]) > 2 else None
@@ -654,7 +663,29 @@ def _const_flags(fn):
                 out.add(named[l])
         elif len(ds) >= 2:
             out.add("_%d" % l)
+    # enum values built as one constant variant per path
+    for l, loc in enumerate(fn.locals):
+        if l == 0 or l <= fn.arg_count or loc["ty"] == "bool":
+            continue
+        ds = fn.defs(l)
+        if len(ds) >= 2 and all(d[0] == "assign" and d[3]["k"] == "agg" and d[3].get("agg") == "adt" and d[3].get("is_enum") and d[3].get("variant") for d in ds):
+            out.add(named.get(l, "_%d" % l))
+    # a boolean call result that is wrapped into a value (`Some(timer.limit_reached())`) and tested after unwrapping
+    wrapped = set()
+    for b in fn.live_blocks():
+        for st in fn.blocks[b]["stmts"]:
+            if st["k"] == "assign" and st["rv"]["k"] == "agg" and st["rv"].get("agg") in ("adt", "tuple"):
+                for o in st["rv"]["ops"]:
+                    if o.get("k") in ("move", "copy") and not o["place"]["proj"] and o["place"].get("ty") == "bool":
+                        wrapped.add(o["place"]["local"])
+    for l in wrapped:
+        ds = fn.defs(l)
+        if l > fn.arg_count and len(ds) == 1 and ds[0][0] == "call":
+            out.add(named.get(l, "_%d" % l))
     return out
+
+
+PAYLOAD_KEY = re.compile(r"^[\w.]+@\w+\.\d+$")
 
 
 class Flow:
@@ -672,7 +703,7 @@ class Flow:
             base = track
 
             def track(key, _b=base, _f=flags):
-                return _b(key) or (key[0] == "val" and key[1] in _f)
+                return _b(key) or (key[0] == "val" and (key[1] in _f or PAYLOAD_KEY.match(key[1]) is not None))
 
         self.cond = Cond(prog, track)
         self.track = track
@@ -778,6 +809,26 @@ class Flow:
                             if cur is not None:
                                 out.add(cur)
                     worlds = frozenset(out)
+            if self.gen and rv["k"] == "agg" and rv.get("agg") == "adt" and rv.get("variant") and not s["place"]["proj"]:
+                # `X = Some(flag)`: the payload keeps the flag's value
+                for i, o in enumerate(rv["ops"]):
+                    if o.get("k") in ("move", "copy") and not o["place"]["proj"] and o["place"].get("ty") == "bool":
+                        src = self.fn.place_str(o["place"])
+                        dstk = ("val", "%s@%s.%d" % (ps, rv["variant"], i))
+                        if self.track(dstk):
+                            worlds = frozenset(world_set(w, dstk, dict(w)[("val", src)]) if ("val", src) in dict(w) else w for w in worlds)
+            if self.gen and rv["k"] == "use" and rv["op"].get("k") in ("move", "copy") and not rv["op"]["place"]["proj"] and not s["place"]["proj"] and s["place"]["ty"] != "bool":
+                # a whole value moved on (`dest = move ret`): payload facts move with it
+                src = self.fn.place_str(rv["op"]["place"])
+                out = set()
+                for w in worlds:
+                    add = [((k[0], ps + k[1][len(src):]), v) for k, v in w if k[0] == "val" and (k[1].startswith(src + "@") or k[1] == src)]
+                    cur = w
+                    for k2, v2 in add:
+                        if self.track(k2):
+                            cur = world_set(cur, k2, v2)
+                    out.add(cur)
+                worlds = frozenset(out)
             if rv["k"] == "agg" and rv["agg"] in ("closure", "coroutine", "coroutine_closure"):
                 e = self.eb_raw.rvalue(rv)
                 for a in e[5]:
